@@ -227,7 +227,7 @@ PROPS["C03"] = {
 PROPS["C04"] = {
     "units": lambda tier, seed: [
         unit_serve(lambda c: False, panic_tags=("C13", "C04"), precond=True),
-        unit_etag(["etag_eq_sym", "etag_list_sym", "etag_match_sym"]),
+        unit_etag(["etag_eq_sym", "etag_list_sym", "etag_match_im", "etag_match_inm", "etag_match_im_noetag", "etag_match_inm_noetag"]),
     ],
     "explanation": "parse_modified_hdrs is executed for every structural combination generated by vlib/gen_precond.py (entity ETag "
     "kind x If-Match / If-None-Match text from a list of 10 (14) tag-list shapes incl. `*`, weak tags, tags containing ', ' x "
@@ -301,7 +301,7 @@ PROPS["C10"] = {
 PROPS["C11"] = {
     "units": lambda tier, seed: [
         unit_chunker(["chunker_abort_cap2", "chunker_abort_cap3", "chunker_body_drop_cap2"]),
-        unit_gzip(["sb_dead_after_abort"]),
+        unit_gzip(["sb_dead_after_abort_raw", "sb_dead_after_abort_gz"]),
     ],
     "explanation": "As C08 with abort at any position (terminal event is an error, delivered bytes are a prefix, no end-of-stream claim while the "
     "error is pending, later writes/flushes fail) and with the response body dropped at any position (a later write+flush must fail).",
@@ -327,7 +327,7 @@ PROPS["C13"] = {
     "units": lambda tier, seed: [
         unit_range(),
         unit_serve(g("m405", "unsat", methods=("POST", "EXT", "GET"))),
-        unit_etag(["etag_list_sym", "etag_match_sym"]),
+        unit_etag(["etag_list_sym", "etag_match_im", "etag_match_inm", "etag_match_im_noetag", "etag_match_inm_noetag"]),
     ],
     "explanation": "Kani's built-in checks (arithmetic overflow, slice bounds, unwrap/expect, unreachable) are the oracle: the Range parser over all "
     "64-bit numbers and near-miss texts, the tag-list iterator over symbolic bytes, serve() over the structural configurations; 405 + Allow + "
